@@ -21,6 +21,9 @@ CLAIMED = {
  "C13": ("Hypothesis-generated edges x density families x parameters x bin_evaluation x density flag vs closed-form integrals and closed-form (Euler-Maclaurin) quadrature errors",
          "Generated-input search with an analytic oracle: bin contents read through HistParametricModel.data and HistFit.model (incl. re-reads after parameter change, rebin, data replacement with same shape/different edges) are compared with F(b)-F(a); for polynomial densities the exact error of midpoint/trapezoid/Simpson is known in closed form, which pins exactness (degree 1/1/3) and convergence order at rounding precision without re-using the implementation's node/weight formulas; other families use the textbook error bounds with analytic derivative maxima; scipy-quad within 1e-7.",
          "Trusts the closed-form antiderivatives in kverif/props/c13.py; edges with widths >= 1e-3, |x| <= 10; N counted by the harness.", "DESIGN.md §4 C13"),
+ "C02": ("Hypothesis op-list histories on every container kind vs. independent numpy assembly of the total covariance",
+         "Generated-input search over histories (add_error / add_matrix_error cov|cor+err / disable / enable / value changes through every setter, fill, rebin, model parameter and x changes / reads of err, cov_mat, cor_mat, cov_mat_inverse, get_total_error with every axis spelling) on indexed, xy, histogram, unbinned containers and the three parametric models; after every read the result is compared with sum_enabled (sigma sigma^T) o rho assembled by the harness from its own source list and current values (signed relative references), plus symmetry, PSD, inverse consistency and bit-exact restoration by disable+enable.",
+         "Trusts the ~30-line numpy reference in kverif/props/c02.py; sizes 1..6; magnitudes 1e-2..1e2; histogram rebin keeps the number of bins; inverse judged only for cond <= 1e8.", "DESIGN.md §4 C02"),
 }
 NOT_YET = "check not built yet in this session (work in progress; see DESIGN.md §10 build order)"
 
